@@ -189,6 +189,13 @@ def run_linop(ctx, prop, prop_file, n_quick, n_thorough, want):
                 if not np.allclose(M, R, rtol=1e-9, atol=1e-9):
                     note_fail("algebra:" + top, "operator does not act as the matrix expression of its parts",
                               {"kind": "oracle", "tree": desc, "term": T, "max_abs_diff": float(np.abs(M - R).max())})
+                # ... and on the generated input itself, in the dtype it is stored in (a real-dtype x sees casts that the
+                # complex basis vectors of `dense` do not)
+                yr = (R @ np.ravel(x0)).reshape(y.shape) if y.size == R.shape[0] else None
+                if yr is None or not np.allclose(y, yr, rtol=1e-9, atol=1e-9 * (1 + np.abs(yr).max())):
+                    note_fail("algebra-apply:" + top, "A(x) differs from the matrix expression of its parts applied to x (x stored as %s)" % x0.dtype,
+                              {"kind": "oracle", "tree": desc, "term": T, "x": np.ravel(x0).tolist().__repr__(), "x_dtype": str(x0.dtype),
+                               "observed": np.ravel(y).tolist().__repr__(), "expected": None if yr is None else np.ravel(yr).tolist().__repr__()})
             if want & {"adj", "applyH", "dot"}:
                 AH = A.H
                 TH = S.term(AH)
